@@ -2,8 +2,8 @@ CONSTANTS
  MaxLen = 2
  ReadSizes = {1, 2, 5}
  MaxDrops = 1
- MaxFails = 1
- MaxSeeks = 1
+ MaxFails = 0
+ MaxSeeks = 0
  MaxAgain = 0
  RetryLimit = 3
  Schemes = {"reg"}
